@@ -14,7 +14,7 @@
    Every theorem quantifies over all configurations, all answers of the beacon node (any slots,
    any validators, duplicates), all clock positions and all histories. *)
 From Verif Require Import Lib.Base Model.C03_ChainTime Model.C03_Controller Model.C03_Spec
-     Proofs.C03_ChainTime Proofs.C03_Table Proofs.C03_Sched Proofs.C03_Hist Proofs.C03_Merge Proofs.C03_Witness.
+     Proofs.C03_ChainTime Proofs.C03_Table Proofs.C03_Sched Proofs.C03_Hist Proofs.C03_More Proofs.C03_Merge Proofs.C03_Witness.
 From Coq Require Import Permutation Sorted.
 Open Scope Z_scope.
 
@@ -188,6 +188,26 @@ Example C03_att_jobs_nonvacuous :
   [ (JAtt 9, [(1, 2, 3)]); (JAtt 11, [(4, 0, 7); (3, 1, 0)]) ].
 Proof. vm_compute. reflexivity. Qed.
 
+(* "ignores duties outside the requested epoch": the slot filter of the scheduling functions keeps
+   exactly the slots whose chain-time epoch is the requested one *)
+Theorem C03_in_epoch_is_chain_time_epoch : forall c e s,
+  0 < ct_spe (c_ct c) -> (e + 1) * ct_spe (c_ct c) < two64 ->
+  (in_epoch c e s = true <-> slot_to_epoch (c_ct c) s = e).
+Proof. exact in_epoch_iff. Qed.
+Print Assumptions C03_in_epoch_is_chain_time_epoch.
+
+(* the sync committee window in plain arithmetic: from the slot before the period's first slot
+   (clamped to the fork epoch, to slot 0 and to now) to two slots before the next period's first slot *)
+Theorem C03_sync_window_plain : forall c ae cur ep,
+  let P := ep / c_period c in
+  let ce := cur_epoch c cur in
+  let hiE := N.max ((P + 1) * c_period c) ae in
+  let fe := N.max (N.max (P * c_period c) ae) ce in
+  N.max hiE ce * ct_spe (c_ct c) < two64 -> 2 <= hiE * ct_spe (c_ct c) -> 0 < c_period c ->
+  sync_window c ae cur ep = (fe, N.max (fe * ct_spe (c_ct c) - 1) cur, hiE * ct_spe (c_ct c) - 2).
+Proof. exact sync_window_plain. Qed.
+Print Assumptions C03_sync_window_plain.
+
 (* =========================================================================================== *)
 (* Every history, disciplined or not: the scheduler never holds two jobs of one name, and every
    attestation / proposal / early-proposal / sync-preparation job is timed at its slot's start
@@ -199,6 +219,46 @@ Print Assumptions C03_one_job_per_name_rightly_timed.
 
 Example C03_tbl_ok_nonvacuous : forall h ae, tbl_ok wcfg (st_jobs (init_state h ae)).
 Proof. intros h ae. apply tbl_ok_nil. Qed.
+
+(* ... hence, with the chain-time theorems: in every history every attestation / proposal job is
+   timed inside the slot of its duty (for delays shorter than a slot) *)
+Theorem C03_jobs_run_in_their_slot : forall shadowed c ops st n j,
+  tbl_ok c (st_jobs st) -> params_ok (c_ct c) ->
+  tget (st_jobs (run shadowed c st ops)) n = Some j ->
+  match n with
+  | JAtt s => slot_in_range (c_ct c) (s + 1) -> (0 <= c_att_delay c < ct_dur (c_ct c))%Z ->
+              current_slot (c_ct c) (j_time j) = s
+  | JProp s => slot_in_range (c_ct c) (s + 1) -> (0 <= c_prop_delay c < ct_dur (c_ct c))%Z ->
+               current_slot (c_ct c) (j_time j) = s
+  | JEarly s => slot_in_range (c_ct c) (s + 1) -> current_slot (c_ct c) (j_time j) = s
+  | _ => True
+  end.
+Proof. exact jobs_in_slot_run. Qed.
+Print Assumptions C03_jobs_run_in_their_slot.
+
+(* A scheduled job stays in the table, unchanged, through every event except: it runs (its own
+   firing, the early-proposal check finding the head up to date, the fast track of the current
+   slot's attestation), a detected change of dependent root refreshes its kind, or the process
+   restarts.  [may_drop] (Proofs/C03_More.v) spells these cases out per operation. *)
+Theorem C03_jobs_persist : forall shadowed c st o n j,
+  tget (st_jobs st) n = Some j ->
+  tget (st_jobs (step shadowed c st o)) n = Some j \/
+  match o with
+  | Start => True
+  | Fire m h => m = n \/ (exists s, m = JEarly s /\ n = JProp s /\ h = sub64 s 1)
+  | Head slot pr cr =>
+      slot = st_cur st /\
+      let d := reorg_decide (st_last_epoch st) (st_prev_root st) (st_cur_root st) (slot_to_epoch (c_ct c) slot) pr cr in
+      ((c_ft_att c = true /\ n = JAtt slot) \/
+       (fst d = true /\ is_att n = true) \/
+       (snd d = true /\ (is_att n = true \/ is_prop n = true \/ is_sync n = true)))
+  | RefreshAtt _ => is_att n = true
+  | RefreshProp _ => is_prop n = true
+  | RefreshSync _ => is_sync n = true
+  | _ => False
+  end.
+Proof. exact jobs_persist. Qed.
+Print Assumptions C03_jobs_persist.
 
 (* =========================================================================================== *)
 (* Start-up and restart at any instant, whatever the node answers: every job of the fresh process
@@ -215,6 +275,22 @@ Print Assumptions C03_restart_strictly_later.
 Example C03_restart_nonvacuous :
   map j_name (st_jobs (start false wcfg (set_env (set_cur (init_state false 0) 8) wenv))) = [JProp 9; JAtt 9].
 Proof. vm_compute. reflexivity. Qed.
+
+(* ... and it schedules every strictly later duty the node reports for the current and the next
+   epoch, with the reported validator and the right time *)
+Theorem C03_restart_schedules_later_duties : forall shadowed c,
+  0 < ct_spe (c_ct c) ->
+  forall st d,
+    bounded c (st_cur st) -> e_vals (st_env st) = true ->
+    let ce := cur_epoch c (st_cur st) in
+    st_cur st < ad_slot d ->
+    (In d (alookup (e_att (st_env st)) ce) /\ in_epoch c ce (ad_slot d) = true) \/
+    (In d (alookup (e_att (st_env st)) (add64 ce 1)) /\ in_epoch c (add64 ce 1) (ad_slot d) = true) ->
+    exists j, tget (st_jobs (start shadowed c st)) (JAtt (ad_slot d)) = Some j /\
+              In (ad_val d, ad_comm d, ad_vci d) (j_pay j) /\
+              j_time j = (start_of_slot (c_ct c) (ad_slot d) + c_att_delay c)%Z.
+Proof. exact start_schedules_later_duties. Qed.
+Print Assumptions C03_restart_schedules_later_duties.
 
 (* =========================================================================================== *)
 (* The once-per-epoch guard.  After the ticker has run, any further tick of the same process while
